@@ -19,10 +19,15 @@ GRAMMAR
         return OUT
     KEYSET ::= set(LIST) | SETX            SETX ::= SETX `|` SETX | set(LIST) | D.keys() | {*LIST, ...}
     LIST   ::= [*LIST, ...] | LIST + LIST | list(LIST) | D.keys() | D | sorted(LIST) | tuple(LIST)
-    STEP   ::= OUT[K] = VALUE | if COND: STEP [elif ...] [else: STEP]          (exactly one statement per branch)
-    VALUE  ::= D[K] | update_config(D[K], D[K])
+    STEP   ::= S*                                   (symbolically executed once per key, statements in order)
+    S      ::= OUT[K] = VALUE | <local> = VALUE | if COND: S* [elif ...] [else: S*] | continue | pass
+               `continue` ends the iteration for this key (what has been stored so far is the outcome); a later store
+               overwrites an earlier one; a local must be assigned earlier IN THE SAME iteration on every path that
+               reads it; the result of a recursive call must be what is finally stored (otherwise refused)
+    VALUE  ::= D[K] | <local> | update_config(ARG, ARG)          ARG ::= D[K] | <local holding D[K]>
     COND   ::= K in D | K not in D | K in D.keys() | K not in D.keys() | isinstance(D[K], dict)
-             | not COND | COND and COND | COND or COND            (and/or short-circuit, left to right)
+             | isinstance(<local holding D[K]>, dict) | not COND | COND and COND | COND or COND   (short-circuit)
+             every evaluation of a subscript D[K] is guarded at the place where Python evaluates it (v_guard)
     D      ::= input_dict | default_dict   (the two parameters, whatever their names)
   apply_default_config(input_dict):
         import yaml / import cij.data                                   (glue, exact text)
@@ -92,7 +97,7 @@ class Update:
             if len(bindings_of(fn, nm)) != n_expected:
                 bail(fn, "name `%s` is bound more than once inside update_config" % nm)
         for n in ast.walk(fn):
-            if isinstance(n, (ast.Break, ast.Continue, ast.Try, ast.With, ast.While, ast.Delete, ast.AugAssign, ast.Global,
+            if isinstance(n, (ast.Break, ast.Try, ast.With, ast.While, ast.Delete, ast.AugAssign, ast.Global,
                               ast.Nonlocal)):
                 bail(n, "%s inside update_config" % type(n).__name__)
             if isinstance(n, ast.Return) and n is not ret:
@@ -100,9 +105,8 @@ class Update:
             if isinstance(n, ast.For) and n is not loop:
                 bail(n, "a second loop")
         self.keys = self.keyset(loop.iter)
-        if len(loop.body) != 1:
-            bail(loop.body[1], "the loop body is not a single if/elif/else chain (or a single store)")
-        self.step = self.stmt(loop.body[0])
+        self.loop = loop
+        self.step = self.run(list(loop.body), {}, None, [], "    ")
 
     # -- the key set -----------------------------------------------------------------------------
     def keyset(self, e):
@@ -171,7 +175,7 @@ class Update:
             return e.value.id
         return None
 
-    def cond(self, t):
+    def cond(self, t, env):
         if isinstance(t, ast.Compare) and len(t.ops) == 1 and isinstance(t.ops[0], (ast.In, ast.NotIn)) \
                 and isinstance(t.left, ast.Name) and t.left.id == self.k:
             r = t.comparators[0]
@@ -189,45 +193,101 @@ class Update:
             d = self.sub(t.args[0])
             if d is not None:
                 return "(c_sub %s %s)" % (self.present[d], self.isdict[d])
+            a = t.args[0]
+            if isinstance(a, ast.Name) and a.id in env:
+                # a local that holds D[K]: the subscript was evaluated (and guarded) when the local was bound
+                v = env[a.id]
+                if v[0] == "take":
+                    return "(c_fact %s)" % self.isdict[v[1]]
+                bail(t, "isinstance of the local `%s`, which holds the result of a recursive call" % a.id)
         if isinstance(t, ast.UnaryOp) and isinstance(t.op, ast.Not):
-            return "(c_not %s)" % self.cond(t.operand)
+            return "(c_not %s)" % self.cond(t.operand, env)
         if isinstance(t, ast.BoolOp):
             f = "c_and" if isinstance(t.op, ast.And) else "c_or"
-            parts = [self.cond(v) for v in t.values]
+            parts = [self.cond(v, env) for v in t.values]
             out = parts[-1]
             for p in reversed(parts[:-1]):
                 out = "(%s %s %s)" % (f, p, out)
             return out
-        bail(t, "condition `%s` (accepted: `%s [not] in D[.keys()]`, isinstance(D[%s], dict), not / and / or)"
-             % (src_of(t)[:100], self.k, self.k))
+        bail(t, "condition `%s` (accepted: `%s [not] in D[.keys()]`, isinstance(D[%s], dict), isinstance(<local holding D[%s]>, dict), "
+                "not / and / or)" % (src_of(t)[:100], self.k, self.k, self.k))
 
-    def value(self, e):
+    def operand(self, e, env):
+        """an argument of the recursive call / a stored value that is D[K] or a local holding D[K]:
+        -> (dict name, guards evaluated now)"""
         d = self.sub(e)
         if d is not None:
-            return "(v_take %s %s)" % (self.side[d], self.present[d])
+            return d, [self.present[d]]
+        if isinstance(e, ast.Name) and e.id in env and env[e.id][0] == "take":
+            return env[e.id][1], []
+        return None, None
+
+    def value(self, e, env):
+        """-> (symbolic value, guards in evaluation order); symbolic value: ('take', D) | ('rec', A, B, id)"""
+        d, g = self.operand(e, env)
+        if d is not None:
+            return ("take", d), g
+        if isinstance(e, ast.Name) and e.id in env:
+            return env[e.id], []
         if isinstance(e, ast.Call) and isinstance(e.func, ast.Name) and e.func.id == self.fn.name and len(e.args) == 2 \
                 and not e.keywords:
-            a, b = self.sub(e.args[0]), self.sub(e.args[1])
+            a, ga = self.operand(e.args[0], env)
+            b, gb = self.operand(e.args[1], env)
             if a is not None and b is not None:
-                return "(v_rec %s %s %s %s)" % (self.side[a], self.side[b], self.present[a], self.present[b])
-        bail(e, "stored value `%s` (accepted: D[%s] or %s(D[%s], D[%s]))" % (src_of(e)[:100], self.k, self.fn.name, self.k, self.k))
+                return ("rec", a, b, id(e)), ga + gb
+        bail(e, "value `%s` (accepted: D[%s], a local holding such a value, %s(<D[%s] or local>, <D[%s] or local>))"
+             % (src_of(e)[:100], self.k, self.fn.name, self.k, self.k))
 
-    def stmt(self, s, ind="    "):
-        if isinstance(s, ast.Assign):
-            t = s.targets[0] if len(s.targets) == 1 else None
-            if not (isinstance(t, ast.Subscript) and isinstance(t.value, ast.Name) and t.value.id == self.out
-                    and isinstance(t.slice, ast.Name) and t.slice.id == self.k):
-                bail(s, "statement `%s` (only `%s[%s] = ...`)" % (src_of(s)[:80], self.out, self.k))
-            return self.value(s.value)
+    def final(self, stored, recs, node):
+        """end of the iteration for this key"""
+        for r in recs:
+            if stored != r:
+                bail(node, "the result of a recursive call is computed but not what is stored (its exceptions would be lost "
+                           "in the translation)")
+        if stored is None:
+            return "NoStore"
+        if stored[0] == "take":
+            return "(Take %s)" % self.side[stored[1]]
+        return "(Rec %s %s)" % (self.side[stored[1]], self.side[stored[2]])
+
+    def guard(self, guards, term):
+        for g in reversed(guards):
+            term = "(v_guard %s %s)" % (g, term)
+        return term
+
+    def run(self, ss, env, stored, recs, ind):
+        """symbolic execution of the rest `ss` of the loop body for one key.  env: local -> symbolic value (locals read
+        before being assigned IN THIS ITERATION are refused); stored: the value last stored under OUT[K];
+        recs: recursive calls evaluated so far.  `continue` = this key is done."""
+        if not ss:
+            return self.final(stored, recs, self.loop)
+        s, rest = ss[0], ss[1:]
+        if isinstance(s, ast.Continue):
+            return self.final(stored, recs, s)
+        if isinstance(s, ast.Pass):
+            return self.run(rest, env, stored, recs, ind)
+        if isinstance(s, ast.Assign) and len(s.targets) == 1:
+            t = s.targets[0]
+            if isinstance(t, ast.Subscript) and isinstance(t.value, ast.Name) and t.value.id == self.out \
+                    and isinstance(t.slice, ast.Name) and t.slice.id == self.k:
+                v, g = self.value(s.value, env)
+                nrecs = recs + ([v] if v[0] == "rec" and v not in recs else [])
+                return self.guard(g, self.run(rest, env, v, nrecs, ind))
+            if isinstance(t, ast.Name) and t.id not in (self.out, self.k, self.inp, self.dfl, self.fn.name) \
+                    and t.id.isidentifier():
+                v, g = self.value(s.value, env)
+                nrecs = recs + ([v] if v[0] == "rec" and v not in recs else [])
+                env2 = dict(env)
+                env2[t.id] = v
+                return self.guard(g, self.run(rest, env2, stored, nrecs, ind))
+            bail(s, "statement `%s` (accepted: `%s[%s] = VALUE`, `<local> = VALUE`)" % (src_of(s)[:80], self.out, self.k))
         if isinstance(s, ast.If):
-            if len(s.body) != 1:
-                bail(s.body[1], "a branch with more than one statement")
-            if len(s.orelse) > 1:
-                bail(s.orelse[1], "a branch with more than one statement")
-            th = self.stmt(s.body[0], ind + "  ")
-            el = self.stmt(s.orelse[0], ind + "  ") if s.orelse else "NoStore"
-            return "(ite %s\n%s %s\n%s %s)" % (self.cond(s.test), ind, th, ind, el)
-        bail(s, "statement `%s` in the loop body" % src_of(s)[:80].split("\n")[0])
+            c = self.cond(s.test, env)
+            th = self.run(list(s.body) + rest, env, stored, recs, ind + "  ")
+            el = self.run(list(s.orelse) + rest, env, stored, recs, ind + "  ")
+            return "(ite %s\n%s %s\n%s %s)" % (c, ind, th, ind, el)
+        bail(s, "statement `%s` in the loop body (accepted: stores, local assignments, if / elif / else, continue)"
+             % src_of(s)[:80].split("\n")[0])
 
 
 # ---------------------------------------------------------------------------------------------------
